@@ -24,6 +24,8 @@ ASSUMPTIONS = L.ASSUMPTIONS + [
     "compared: returned value; sets of call hashes, argument hashes, value hashes of arguments and results, handle hashes of "
     "the execution (timestamps, job ids and which duplicate is marked cached are ignored)",
     "handle template: one handle forked into two chains step -> finish inside one parent, tasks 'step' demand the resource",
+    "lazy-handle template: one handle passed to sibling steps whose other argument is a lazy value; same-parent template: one "
+    "parent returns equal calls written as different expressions",
 ]
 install = L.install
 B = L.BRANCH
@@ -63,6 +65,23 @@ def hmain_lazy(salt, n):
     return [hstep(salt, h, hslow(salt, i)) for i in range(n)]
 
 
+@task(name="sident", namespace=P.NS, version="1")
+def sident(salt, x):
+    return x
+
+
+@task(name="sleaf", namespace=P.NS, version="1")
+def sleaf(salt, x):
+    return x * 10
+
+
+@task(name="smain", namespace=P.NS, version="1")
+def smain(salt, n):
+    # the same call written as different expressions under ONE parent: whether the later ones are collapsed onto the running
+    # twin or served from the backend depends on the completion order
+    return [sleaf(salt, 2)] + [sleaf(salt, sident(salt, 2 + 0 * i)) if i == 0 else sleaf(salt, sident(salt, sident(salt, 2))) for i in range(n - 1)]
+
+
 def fingerprint(backend, exec_id):
     s = backend.session
     jobs = s.query(db.Job).filter(db.Job.execution_id == exec_id).all()
@@ -98,6 +117,10 @@ def _run(kind, spec_or_n, pick, limits, leaf_limits, mid_limits, early, symbolic
         lab, outcome, _ = P.run_case(spec_or_n, pick, limits, leaf_limits, mid_limits, early=early, symbolic=symbolic,
                                      with_bad=with_bad, salt=salt, backend=backend, hog_limits=L._hog(limits),
                                      run_kwargs={"execution_id": "E"}, **kw)
+    elif kind == "same_parent":
+        from vp.stubs.schedlab import Lab
+        lab = Lab(pick, limits={}, early=early, backend=backend, symbolic=False, fifo_tasks=() if reference else ("smain",))
+        outcome = lab.run(smain(salt, spec_or_n), execution_id="E")
     elif kind == "handles_lazy":
         from vp.stubs.schedlab import Lab
         hstep._task_options_base["limits"] = []
@@ -173,6 +196,16 @@ def c07_handles(k: int) -> bool:
     return guard(body, k=k)
 
 
+def c07_same_parent(k: int) -> bool:
+    """
+    post: _
+    """
+    def body():
+        n, early = SL()
+        return native(lambda: compare("same_parent", n, choose, {}, [], None, early, False, 0) is None)
+    return guard(body, k=k)
+
+
 def c07_handles_lazy(k: int) -> bool:
     """
     post: _
@@ -201,6 +234,10 @@ CONDITIONS = [
               timeout=300, thorough_timeout=2400,
               bounds="slice = (parallel chains sharing one handle, early mode, limit form); limit and demand symbolic, schedule "
                      "solver-chosen"),
+    Condition(c07_same_parent, slices=[(2, 0), (3, 0), (2, 1)], thorough_slices=[(2, 0), (3, 0), (2, 1), (3, 1), (2, 2)], timeout=200,
+              thorough_timeout=900,
+              bounds="slice = (equal calls written as different expressions under one parent: sleaf(2), sleaf(sident(2)), "
+                     "sleaf(sident(sident(2))); early mode); completion order solver-chosen; no resource limits"),
     Condition(c07_handles_lazy, slices=[(2, 0), (3, 0)], thorough_slices=[(2, 0), (3, 0), (2, 1), (3, 1)], timeout=200, thorough_timeout=900,
               bounds="slice = (sibling steps that share one handle and each take a lazily computed second argument, early mode); "
                      "the order in which the lazy arguments arrive is solver-chosen; no resource limits"),
@@ -224,6 +261,10 @@ def replay(cond, args, extra):
         limit = nxt()
         return {"r": limit}, {"r": nxt()}
     pick = lambda m, label: min(nxt(), m - 1) if pos[0] < len(items) else 0
+    if cond == "c07_same_parent":
+        n, early = extra["slice"]
+        v = compare("same_parent", n, pick, {}, [], None, early, False, 0)
+        return (v is not None), "one parent returns %d equal calls written as different expressions (sleaf(2), sleaf(sident(2)), ...): %s" % (n, v), None
     if cond == "c07_handles_lazy":
         n, early = extra["slice"]
         v = compare("handles_lazy", n, pick, {}, [], None, early, False, 0)
